@@ -2,6 +2,7 @@ import Lemmas.BitSetHist
 import Lemmas.BitSetSearch
 import Lemmas.BitSetBounds
 import Lemmas.BitSetHeapLemmas
+import Lemmas.BitSetMasks
 /-! # C08 — BitSet is observationally a finite set of non-negative integers
 
 Property theorems only.  The executable model is `Model/BitSet.lean` (`BS.*`, run against `xmath.BitSet` on every
@@ -334,6 +335,52 @@ theorem aliasing_contrast :
     ∧ (let h := runH [.op (.set .A 5), .op (.set .A 70)]
        (copyOldH h .A .A).view .A = { data := [0#64, 0#64], set := 2 }
        ∧ (applyOpH h (.copy .A .A)).view .A = h.view .A) := by decide
+
+/-! ## range masks: a word-at-a-time implementation computes what the per-bit loops compute
+
+Groundwork and documentation (`Lemmas/BitSetMasks.lean`): the shape `MaxUint64 << startBit`, `MaxUint64 >> (63 - endBit)`
+is the one of the silent control control-ind5-c08 and, with a defect, of ind4-c08-a / ind5-c08-a. -/
+
+/-- the bit patterns of the two shifts and of their conjunction -/
+theorem range_masks (s e k : Nat) (he : e < 64) (hk : k < 64) :
+    (maskFrom s).getLsbD k = decide (s ≤ k) ∧ (maskTo e).getLsbD k = decide (k ≤ e)
+    ∧ (rangeMask s e).getLsbD k = decide (s ≤ k ∧ k ≤ e) :=
+  ⟨maskFrom_bit s k hk, maskTo_bit e k he hk, rangeMask_bit s e k he hk⟩
+
+/-- one word: the per-bit loop over the bits `j … j+n−1` IS `w | m`, `w &^ m`, `w ^ m` with `m` the range mask, and it
+    changes the count by the population count of the bits that really change -/
+theorem bit_loops_are_masks (w : W) (s : Int) (j n : Nat) (hn : 0 < n) (h : j + n ≤ 64) :
+    bitLoop bitSet w s j n = (w ||| rangeMask j (j + n - 1), s + popcount (rangeMask j (j + n - 1) &&& ~~~w))
+    ∧ bitLoop bitClear w s j n = (w &&& ~~~rangeMask j (j + n - 1), s - popcount (w &&& rangeMask j (j + n - 1)))
+    ∧ bitLoop bitFlip w s j n
+        = (w ^^^ rangeMask j (j + n - 1), s + popcount (rangeMask j (j + n - 1)) - 2 * popcount (w &&& rangeMask j (j + n - 1))) :=
+  ⟨bitLoop_maskSet w s j n hn h, bitLoop_maskClear w s j n hn h, bitLoop_maskFlip w s j n hn h⟩
+
+/-- **any word-at-a-time range loop** whose body agrees with the whole-word fast path on the full mask and with the bit
+    loop on a range mask equals the loop of the source, words and count; a single-word range takes BOTH bounds -/
+theorem word_at_a_time_loop {whole : W → Int → W × Int} {act : W → Int → Nat → W × Int} {app : W → Int → W → W × Int}
+    (hwhole : ∀ w s, whole w s = app w s (BitVec.allOnes 64))
+    (hbits : ∀ w s j n, 0 < n → j + n ≤ 64 → bitLoop act w s j n = app w s (rangeMask j (j + n - 1)))
+    (i1 i2 sb eb : Nat) (hsb : sb < 64) (heb : eb < 64) (h12 : i1 ≤ i2) (hse : i1 = i2 → sb ≤ eb) (d : List W) (s : Int) :
+    rangeLoopW app i1 i2 sb eb d s i1 (i2 + 1 - i1) = rangeLoop whole act i1 i2 eb d s i1 sb (i2 + 1 - i1) := by
+  have := rangeLoopW_eq hwhole hbits i1 i2 sb eb hsb heb h12 hse (i2 + 1 - i1) d s i1 (Nat.le_refl _) (by omega)
+  simpa using this
+
+/-- **SetRange / ClearRange / FlipRange written word at a time** (same swap, same `EnsureCapacity`, same clamp) are the
+    operations of the source, for all arguments -/
+theorem word_at_a_time_ops (b : T) (s e : Nat) :
+    setRangeW b s e = setRange b s e ∧ clearRangeW b s e = clearRange b s e ∧ flipRangeW b s e = flipRange b s e :=
+  ⟨setRangeW_eq b s e, clearRangeW_eq b s e, flipRangeW_eq b s e⟩
+
+/-- CONTRAST: (1) a single-word range that uses only the start mask sets bits past `end`; (2) only the end mask sets bits
+    before `start`; (3) a flip whose count is updated by the population count of the mask, ignoring the bits that were
+    already set, drifts (the defect class of ind4-c08-a) -/
+theorem mask_contrast :
+    (0#64 ||| maskFrom 3) ≠ (bitLoop bitSet 0#64 0 3 3).1
+    ∧ (0#64 ||| maskTo 5) ≠ (bitLoop bitSet 0#64 0 3 3).1
+    ∧ (0#64 ||| rangeMask 3 5) = (bitLoop bitSet 0#64 0 3 3).1
+    ∧ (5 : Int) + popcount (rangeMask 0 3) ≠ (bitLoop bitFlip 0x3#64 5 0 4).2
+    ∧ (maskFlip 0x3#64 5 (rangeMask 0 3)).2 = (bitLoop bitFlip 0x3#64 5 0 4).2 := by decide
 
 /-! non-vacuity: the invariant holds for the zero value and a concrete history; `countSetBits` evaluated at sample
     words; `equal` sees through different capacities -/
